@@ -85,3 +85,27 @@ def run(chk, st, tier):
     chk.coverage["rule"] = ("every Add/Write history up to length %d (quick: half of the longest) over 5 shapes, 3 codecs, page sizes 1..2; for each, EVERY index k of the sink Write call that fails (k = 0 .. number of sink writes - 1); "
                             "the real writer's per-call error flags and the writes that reached the sink are compared with the model's (run_fault over the model's sink-write sequence). distinct = distinct (workload,k)." % maxlen)
     chk.coverage["explanation"] = "sink_fault_reported / run_fault_hit (coq/props/C09.v): in the model every fault is reported by the call in which it happens; the enumeration ties the model's sink-write sequence and error propagation to the code."
+
+
+def replay(chk, st, data):
+    shapes, runner = Fm.get_portfolio(chk)
+    if not runner:
+        return
+    sh = next((x for x in shapes if x.name == data.get("shape")), None)
+    if sh is None:
+        chk.broke("replay", "unknown shape in replay file")
+        return
+    w = Fm.Workload(sh, int(data["codec"]), int(data["page_size"]), list(data["ops"]), "replay")
+    kf = int(data.get("fail_at", 0))
+    lines = Fm.shape_lines(shapes) + [w.line("f", failat=kf)]
+    impl, model, _, _ = C.run_cases(lines, "C09-replay", impl_cmd=[runner])
+    a, b = impl.get("f"), model.get("f")
+    chk.count(("replay", kf))
+    chk.count(("replay-marker",))
+    pa = Fm.parse_write(a)
+    if pa is None or "1" not in pa[0]:
+        chk.fail("replay|k=%d" % kf, "%s: the sink failed its write #%d but no API call returned an error (%s)" % (w.describe(), kf, (a or "")[:80]), dict(w.replay(), fail_at=kf))
+    elif a != b:
+        chk.broke("correspondence:C09", "replayed case differs from the model: %s vs %s" % ((a or "")[:80], (b or "")[:80]))
+    chk.sample({"replayed": w.describe(), "fail_at": kf, "implementation": (a or "")[:100]})
+    chk.coverage["rule"] = "replay of one stored (workload, failing sink write index)"
